@@ -219,10 +219,16 @@ where
                         out.oracle(matches!(r, Ok(Err(_))), || format!("flp wrong-length prove {}", pre), || "wrong-length argument not refused".into());
                     }
                 }
-                let mut short = pr.clone();
-                short.pop();
-                let r = catch(std::panic::AssertUnwindSafe(|| typ.prove(&input, &short, &jr)));
-                out.case(format!("flp prove {} {} {} {}", pre, enc(&input), enc(&short), enc(&jr)), show(r.map(|r| r.map_err(|_| ()))));
+                // the prover's randomness at lengths 0, 1, len-1, len+1, 2*len
+                for n in [0usize, 1, pr.len().saturating_sub(1), pr.len() + 1, 2 * pr.len()] {
+                    if n == pr.len() {
+                        continue;
+                    }
+                    let other: Vec<Fd<T>> = (0..n).map(|i| if pr.is_empty() { Fd::<T>::one() } else { pr[i % pr.len()] }).collect();
+                    let r = catch(std::panic::AssertUnwindSafe(|| typ.prove(&input, &other, &jr)));
+                    out.oracle(matches!(r, Ok(Err(_))), || format!("flp wrong-length prove_rand ({} for {}) {}", n, pr.len(), pre), || "not refused with an error".into());
+                    out.case(format!("flp prove {} {} {} {}", pre, enc(&input), enc(&other), enc(&jr)), show(r.map(|r| r.map_err(|_| ()))));
+                }
             }
         }
     }
